@@ -94,6 +94,12 @@ func c20scenario(k int, explore bool) string {
 		opt.String("port", "", opt.Required("port is needed"), opt.Alias("p"))
 		opt.String("Port", "", opt.Required("Port is needed"), opt.Alias("P"))
 		opt.Bool("gamma", false)
+	case 14: // help text with commands whose names differ only in letter case
+		opt.NewCommand("status", "lower")
+		opt.NewCommand("Status", "upper")
+		opt.NewCommand("STATUS", "all caps")
+		opt.HelpCommand("help")
+		args = []string{"help"}
 	case 13: // the same on a command, plus names that differ in a trailing character
 		cmd := opt.NewCommand("cmd", "")
 		cmd.String("x", "", cmd.Required())
@@ -120,7 +126,7 @@ func c20scenario(k int, explore bool) string {
 }
 
 func VerifC20_MapOrder() {
-	k := vInt("scenario", 0, 13)
+	k := vInt("scenario", 0, 14)
 	vPhase("run")
 	first := c20scenario(k, false)
 	vObserve("first", first)
